@@ -584,7 +584,9 @@ func (s *State) get(name string) Term {
 				conds = append(conds, app("<", "a", s.bound))
 			}
 			for _, m := range s.exclude {
-				if m.heap == "" || m.heap == name {
+				if m.low != "" {
+					conds = append(conds, app("<", "a", m.low))
+				} else if m.heap == "" || m.heap == name {
 					conds = append(conds, not(eq("a", m.id)))
 				}
 			}
